@@ -2,7 +2,7 @@ PROP = dict(
         coq="Properties/C19.v",
         workloads=[
             dict(name="gauge-history", go_test="TestC19", runner="C19",
-                 env=dict(quick=dict(VERIF_CASES=90), thorough=dict(VERIF_CASES=2500))),
+                 env=dict(quick=dict(VERIF_CASES=90), thorough=dict(VERIF_CASES=2000))),
             dict(name="split", go_test="TestC19Split", runner="C19-split",
                  env=dict(quick=dict(VERIF_CASES=1500), thorough=dict(VERIF_CASES=60000, VERIF_EXHAUSTIVE=1))),
         ],
@@ -25,7 +25,7 @@ PROP = dict(
                      "ESM / circuit breaker off for the apps of external programs (their early returns are not modelled)",
                      "the swap-fee distribution denom parameter does not change",
                      "c19_share is proved for farmers worth at least one unit (10^18 scaled) and outside class C19-F1; the general bound is c19_share_general",
-                     "custody is proved for histories that meet neither class C19-F2 nor C19-F3 (run_clean); inside them it is refuted by witness and on the real keepers"],
+                     "custody is proved for histories that meet neither class C19-F2 nor C19-F3 (run_clean) and whose recorded fee transfers are non-negative (op_wf); inside the classes it is refuted by witness and on the real keepers; c19_program_safe gives an input condition (balances add up to at most the recorded total, 4 * owners * available <= 10^18) under which a program step is outside C19-F3"],
     )
 
 MANIFEST = dict(
